@@ -188,7 +188,10 @@ class SNum:
                     if ak in ("pyi", "pyf") and bk in ("pyi", "pyf"):
                         raise ZeroDivisionError("division by zero")
                     raise ModelLimit("float division by zero gives inf/nan")
-            v = alg.rdiv(av, alg.ite(alg.eq(bv, 0), 1, bv) if alg.is_sym(bv) else bv)
+            if alg.is_sym(bv):
+                v = alg.rdiv(av, alg.ite(alg.eq(bv, 0), 1, bv))
+            else:
+                v = alg.rdiv(av, bv) if bv != 0 else 0
         else:  # pragma: no cover
             raise AssertionError(op)
         return SNum(v, nan, kind, unit if kind in ("m", "M") else None)
@@ -328,7 +331,8 @@ def convert_scalar(x, kind, unit=None):
     nan, val, k, u = x.nan, x.val, x.kind, x.unit
     if kind == "f":
         if k in ("m", "M"):
-            return SNum(alg.to_real(val), nan, "f")
+            # NaT is the int64 minimum; cast to float it becomes -2**63 (not NaN)
+            return SNum(alg.ite(nan, -(2**63), alg.to_real(val) if alg.is_sym(val) else val), False, "f")
         return SNum(alg.to_real(val) if alg.is_sym(val) else val, nan, "f")
     if kind in ("i", "u"):
         if k in ("f", "pyf"):
